@@ -38,6 +38,29 @@ impl CustomSection for TypedSec {
     }
 }
 
+/// A user-defined section that keeps one function alive through `add_gc_roots` and records that function's
+/// emitted index in its payload (what a tool's own metadata section does).  If the GC honours the root, the
+/// function and everything it needs survive and `data()` finds its index.
+#[derive(Debug, Clone)]
+pub struct RootSec {
+    pub name: String,
+    pub func: walrus::FunctionId,
+}
+
+impl CustomSection for RootSec {
+    fn name(&self) -> &str {
+        &self.name
+    }
+    fn data(&self, ix: &IdsToIndices) -> Cow<[u8]> {
+        // (u32::MAX when the function was deleted by a later edit of the history: absent, not a panic)
+        let f = self.func;
+        Cow::Owned(idx_or_absent(|| ix.get_func_index(f)).to_le_bytes().to_vec())
+    }
+    fn add_gc_roots(&self, roots: &mut walrus::passes::Roots) {
+        roots.push_func(self.func);
+    }
+}
+
 pub const PROBE_NAME: &str = "dst.probe";
 
 #[derive(Debug, Default, Clone)]
